@@ -25,7 +25,7 @@ import (
 func init() {
 	Registry["C13"] = &Check{
 		Scenarios: c13Scenarios,
-		Rule: "three watchdog scripts with delayed acknowledgements while an application goroutine updates the connection context (read, work, store a derived one) every quarter interval, so that an update straddles the start of every round (preemption bound 0: every ordering of the free transitions); client side: MaxRetransmits R in {0,1,2}, WatchdogInterval 3 s, RetransmitInterval 1 s on the virtual clock; the peer's reaction to the n-th DWR transmission is scripted from {success DWA after 0, 1/2 or 1 interval (1 = exact tie with the retransmission timer), DWA 5012 at once, silence}, a transport that takes 3/2 intervals to accept the first DWR while the peer answers at once (R 0 and 1: no retransmission, no close); two dials through one state machine, one with the watchdog off and one with it on, in either order (the watched connection stays open and is probed every interval, the other never sees a DWR); server side: every sequence of <=3 DWRs over {fresh identifiers, the previous identifiers again, the same with the T flag, fresh with the T flag, the same with the P flag, zero identifiers with T} is answered DWR by DWR; scripts with other non-success answers (1001, 3004, a DWA without Result-Code) and with a peer that leaves a DWR unanswered but sends a DWR of its own at that instant, plus five burst scripts with answers delayed by 3/2 and 5/2 intervals (several late answers landing inside one later waiting window); all scripts of length <=2 (thorough 3), silence afterwards, so every run ends with the watchdog closing the connection; every schedule of watchdog thread, reader, timers and peer up to preemption bound 2 (thorough: unbounded for scripts of length <=1); peer steps and due timers are free transitions, so every ordering of answer / timer / reader is explored already at bound 0. In every other scenario the application replaces the connection context after the handshake by one derived from it that carries a value of its own and has been cancelled. Oracle: the observed (time, hop-by-hop id) sequence of DWRs and the close time must be one of the timelines of a reference model (branching only at exact ties). Redial: the peer of a first connection leaves the first DWR unanswered and disconnects 0 or 1/2 interval later, the application redials at once with the same Client, and the second connection (peer answers two DWRs, then silence) must show the model's timeline measured from its own handshake (R in {0,1}). A handshake that takes longer than WatchdogInterval (the peer answers only the retransmitted CER): no DWR before the CEA, the first one interval after it. Two live connections of one Client (dialled one after the other, both peers answer every DWR): neither is closed and each sees one DWR per interval. A client with the watchdog enabled answers a DWR its handshaken peer sends (between rounds and at the instant of its own DWR). Server side: one state machine serves 40 peers one after the other (handshake, DWR, disconnect each); for every DWR from a handshaken peer over {both identity AVPs, Origin-Host missing, Origin-Realm missing, with Origin-State-Id, Origin-Host in another letter case, another Origin-Host} x ids {0,1,2^31,2^32-1}^2 the state machine must answer a success DWA with the local identity and the request's ids.",
+		Rule: "one long-lived Client whose Handler is pointed at a new state machine between two dials, both connections watched; three watchdog scripts with delayed acknowledgements while an application goroutine updates the connection context (read, work, store a derived one) every quarter interval, so that an update straddles the start of every round (preemption bound 0: every ordering of the free transitions); client side: MaxRetransmits R in {0,1,2}, WatchdogInterval 3 s, RetransmitInterval 1 s on the virtual clock; the peer's reaction to the n-th DWR transmission is scripted from {success DWA after 0, 1/2 or 1 interval (1 = exact tie with the retransmission timer), DWA 5012 at once, silence}, a transport that takes 3/2 intervals to accept the first DWR while the peer answers at once (R 0 and 1: no retransmission, no close); two dials through one state machine, one with the watchdog off and one with it on, in either order (the watched connection stays open and is probed every interval, the other never sees a DWR); server side: every sequence of <=3 DWRs over {fresh identifiers, the previous identifiers again, the same with the T flag, fresh with the T flag, the same with the P flag, zero identifiers with T} is answered DWR by DWR; scripts with other non-success answers (1001, 3004, a DWA without Result-Code) and with a peer that leaves a DWR unanswered but sends a DWR of its own at that instant, plus five burst scripts with answers delayed by 3/2 and 5/2 intervals (several late answers landing inside one later waiting window); all scripts of length <=2 (thorough 3), silence afterwards, so every run ends with the watchdog closing the connection; every schedule of watchdog thread, reader, timers and peer up to preemption bound 2 (thorough: unbounded for scripts of length <=1); peer steps and due timers are free transitions, so every ordering of answer / timer / reader is explored already at bound 0. In every other scenario the application replaces the connection context after the handshake by one derived from it that carries a value of its own and has been cancelled. Oracle: the observed (time, hop-by-hop id) sequence of DWRs and the close time must be one of the timelines of a reference model (branching only at exact ties). Redial: the peer of a first connection leaves the first DWR unanswered and disconnects 0 or 1/2 interval later, the application redials at once with the same Client, and the second connection (peer answers two DWRs, then silence) must show the model's timeline measured from its own handshake (R in {0,1}). A handshake that takes longer than WatchdogInterval (the peer answers only the retransmitted CER): no DWR before the CEA, the first one interval after it. Two live connections of one Client (dialled one after the other, both peers answer every DWR): neither is closed and each sees one DWR per interval. A client with the watchdog enabled answers a DWR its handshaken peer sends (between rounds and at the instant of its own DWR). Server side: one state machine serves 40 peers one after the other (handshake, DWR, disconnect each); for every DWR from a handshaken peer over {both identity AVPs, Origin-Host missing, Origin-Realm missing, with Origin-State-Id, Origin-Host in another letter case, another Origin-Host} x ids {0,1,2^31,2^32-1}^2 the state machine must answer a success DWA with the local identity and the request's ids.",
 		Assume: []string{"virtual time: writes and computation take no time", "data-race freedom between visible operations (audited separately with -race)"},
 		QuickBudget: 150, ThoroughBudget: 2400,
 	}
@@ -127,6 +127,9 @@ func c13Scenarios(tier string) []*Scenario {
 		}
 	}
 	out = append(out, c13TwoLive(0, 0))
+	c13SwapMachine = true
+	out = append(out, c13TwoLive(0, 0), c13TwoLive(1, 0))
+	c13SwapMachine = false
 	out = append(out, c13SlowHandshake(bound))
 	for _, at := range []time.Duration{c13I, c13W, c13W + 3*c13I/2} { // before the first round, exactly when the client's own DWR goes out, and in the quiet part between two rounds
 		out = append(out, c13PeerDWR(at, bound))
@@ -976,7 +979,13 @@ type c13TwoState struct {
 
 var c13two *c13TwoState
 
+// c13SwapMachine: in c13TwoLive the application points the (long-lived) Client at a NEW state
+// machine before the second dial (rebuilt settings after a local restart); both connections keep
+// their watchdogs
+var c13SwapMachine = false
+
 func c13TwoLive(R int, bound int) *Scenario {
+	swap := c13SwapMachine
 	horizon := c13TwoRounds*c13W + time.Duration(R+1)*c13I + c13I/2 // long enough for an unacknowledged first round to end in a close
 	body := func() {
 		st := &c13TwoState{}
@@ -1007,6 +1016,11 @@ func c13TwoLive(R int, bound int) *Scenario {
 					}
 				}
 			})
+			if swap && i == 1 {
+				s2 := *settings
+				s2.OriginStateID = 4242
+				cli.Handler = sm.New(&s2)
+			}
 			c, err := cli.NewConn(st.c[i], "peer")
 			st.ok[i] = c != nil && err == nil
 			if !st.ok[i] {
@@ -1030,7 +1044,11 @@ func c13TwoLive(R int, bound int) *Scenario {
 		}
 		return ""
 	}
-	return &Scenario{Name: fmt.Sprintf("watchdog-two-live-connections/R%d", R), Body: body, Check: check, Bound: bound, Horizon: horizon, Weight: 6,
+	name := fmt.Sprintf("watchdog-two-live-connections/R%d", R)
+	if swap {
+		name += "/second-dial-through-a-new-state-machine"
+	}
+	return &Scenario{Name: name, Body: body, Check: check, Bound: bound, Horizon: horizon, Weight: 6,
 		Outcome: func(s *vs.Sched) string { return fmt.Sprint(c13two.tx, c13two.c[0].Closed, c13two.c[1].Closed) }}
 }
 
